@@ -56,7 +56,9 @@ fn describe(n: usize, edges: u32, req: u32) -> String {
 }
 
 fn node(i: usize) -> DependencyNode {
-    DependencyNode { name: NAMES[i].to_string(), path: format!("{}.rs", NAMES[i]), node_type: DependencyNodeType::Struct }
+    // all five kinds of node occur; the kind of a node never matters for the order
+    let kinds = [DependencyNodeType::Command, DependencyNodeType::Struct, DependencyNodeType::Module, DependencyNodeType::Enum, DependencyNodeType::Type];
+    DependencyNode { name: NAMES[i].to_string(), path: format!("{}.rs", NAMES[i]), node_type: kinds[i % 5].clone() }
 }
 
 /// C20, second sentence: the build-order resolver (Kahn) — BOUNDED only
